@@ -29,11 +29,10 @@ theorem ratToFloat_contract_core (B : Nat) (hB : 2 ≤ B) (m : Float.Mode) (c : 
   · exact ratToFloat_contract_of_fits B hB m c num den p hn hd hp hov hfit
   have hB0 : 0 < B := by omega
   have hp0 : p ≠ 0 := by omega
-  have hov' : ¬ (p + ilogB B (den : Int) ≥ 2 ^ 64) := by omega
-  obtain ⟨hdec, hlt, hulp⟩ := toFloatQuot_spec B hB num den p hn hd hp
+  obtain ⟨hdec, hlt, hulp⟩ := toFloatQuot_spec B hB num den p hn hd hp hov
   unfold toFloatN1 at hfit Hnotie
   unfold ratToFloat
-  simp only [hp0, hn, hov', if_false]
+  simp only [hp0, hn, if_false]
   refine ⟨_, rfl, ?_⟩
   generalize toFloatQuot B num den p = t at *
   have hD : (0 : Int) < (den : Int) := by exact_mod_cast hd
